@@ -16,52 +16,61 @@
    External behaviour enters as Section variables only: loc (data directory) and dirhash (md5 of the DAG path); the single
    fact about them that the proofs use is inside the decidable premise names_okb (directory names of distinct DAGs differ).
 
-   The premises of the `_partial` theorems, all decidable and evaluated by the check on every generated history:
-     names_okb loc dirhash D days K   per-path string premises for the DAG paths D, the days and the file keys K used
-                                      (glob pattern matches exactly the DAG's own files; the time-stamp scan of a path finds
-                                      the start stamp; rendering injective; no glob metacharacter in the directory name)
-     closedb D K                      K is closed under compaction twin and renaming between the DAGs of D
-     premises es                      every event mentions only D/days/K, and along the trace: request ids and start
-                                      SECONDS of one DAG pairwise distinct, no path re-created, rename/retention not applied
-                                      to the DAG whose run is being recorded, positive status sizes
-   FULL statement (for every trace whatsoever, ytrace = sp_trace) is FALSE of the faithful model: C06_refuted_* below. *)
+   Model of the REPAIRED store (fix commits e6d6379 anchored time stamp with milliseconds, 8ffc003 escaped glob patterns, e2affa2
+   append-mode descriptors, 3aa388e readers skip files without a parseable status).  The statements below are the FULL statements of
+   the property; the premises that existed only because of F6a (start stamps distinct at SECONDS), F6b/F6c (names without glob
+   metacharacters / stamp-like substrings), F6d (no update during a run) are gone - the former refutation witnesses are now positive
+   Examples.  Remaining premises, all decidable and evaluated by the check on every generated history, and why they remain:
+     names_okb loc dirhash D days K   per-path STRING facts (the escaped glob pattern of a DAG matches exactly its own files and selects its
+                                      own directory, the anchored stamp scan of a path finds the start stamp, rendering injective): the
+                                      proof does no string reasoning beyond them.  They hold for every name the check ever generated,
+                                      hazardous ones included (the C06_fixed Examples); they would fail e.g. for a request id containing a dot.
+     closedb D K                      K is closed under compaction twin and renaming between the DAGs of D (bookkeeping of the universe)
+     premises es                      - request ids of one DAG pairwise distinct: presupposed by "looking a run up by request id"
+                                      - start stamps of one DAG pairwise distinct (MILLISECONDS): otherwise "most recently started" is
+                                        undefined (C06_same_ms_needs_premise)
+                                      - no path re-created (same DAG, stamp and request id again after deletion): the cache cannot tell a
+                                        re-created file of equal size within the same second (C06_recreated_path_needs_premise)
+                                      - rename only to a different DAG, rename / retention not applied to the DAG whose run is being
+                                        recorded, positive status sizes, chtimes only on existing files: simplifications of the proof (the
+                                        model and the differential check cover those cases too) *)
 From Coq Require Import List String ZArith Permutation Sorting.Sorted.
 Import ListNotations.
 From BD.Hist Require Import GoMatch Model SModel Spec ProofsString ProofsRefine ProofsSpec ProofsTop ProofsC06 ProofsC06Ex.
 
 (* For every interleaving `es` of store operations and queries - asked by the operating process (who = None) or by any reader
    process j with its own cache (who = Some j) - every answer of the model of the store is the answer of the run map. *)
-Theorem C06_refinement_partial :
+Theorem C06_refinement :
   forall (loc : string) (dirhash : string -> string) (D days : list string) (K : list skey),
   names_okb loc dirhash D days K = true -> closedb D K = true ->
   forall es : list ev, premises loc dirhash D days K es ->
   ytrace loc dirhash sys_init es = sp_trace hist_init es.
 Proof. exact refinement. Qed.
-Print Assumptions C06_refinement_partial.
+Print Assumptions C06_refinement.
 
 (* find: looking a run up by request id returns the last status recorded for it (None: no such run / no status yet) *)
-Theorem C06_find_partial :
+Theorem C06_find :
   forall loc dirhash D days K, names_okb loc dirhash D days K = true -> closedb D K = true ->
   forall es d req, premises loc dirhash D days K es -> In d D ->
   fpayload (q_find loc dirhash (hfs (y_h (yrun loc dirhash sys_init es))) d req) = sp_find (sp_state es) d req.
 Proof. exact find_exact. Qed.
-Print Assumptions C06_find_partial.
+Print Assumptions C06_find.
 
-(* latest (of today when a day is given): the last status of the most recently started run *)
-Theorem C06_latest_partial :
+(* latest (of today when a day is given): the last status of the most recently started run that has a status *)
+Theorem C06_latest :
   forall loc dirhash D days K, names_okb loc dirhash D days K = true -> closedb D K = true ->
   forall es who d day, premises loc dirhash D days K es -> In d D -> (match day with Some x => In x days | None => True end) ->
   snd (ystep loc dirhash (yrun loc dirhash sys_init es) (ELatest who d day)) = ALatest (sp_latest (sp_state es) d day).
 Proof. exact latest_exact. Qed.
-Print Assumptions C06_latest_partial.
+Print Assumptions C06_latest.
 
 (* recent n: the n most recently started runs, newest first *)
-Theorem C06_recent_partial :
+Theorem C06_recent :
   forall loc dirhash D days K, names_okb loc dirhash D days K = true -> closedb D K = true ->
   forall es who d n, premises loc dirhash D days K es -> In d D ->
   snd (ystep loc dirhash (yrun loc dirhash sys_init es) (ERecent who d n)) = ARecent (sp_recent (sp_state es) d n).
 Proof. exact recent_exact. Qed.
-Print Assumptions C06_recent_partial.
+Print Assumptions C06_recent.
 
 (* "most recently started first" in the specification: a permutation of the runs, sorted by start stamp, descending *)
 Theorem C06_newest_first_meaning : forall l : list arun,
@@ -81,7 +90,7 @@ Theorem C06_queries_depend_on_view : forall (H H' : hist) (d : string), dag_view
 Proof. exact queries_depend_on_view. Qed.
 Print Assumptions C06_queries_depend_on_view.
 (* ... and on the store: all three queries about d' answer after the operation what they answered before *)
-Theorem C06_isolation_partial :
+Theorem C06_isolation :
   forall loc dirhash D days K, names_okb loc dirhash D days K = true -> closedb D K = true ->
   forall es o d', premises loc dirhash D days K es -> premises loc dirhash D days K (es ++ [EOp o]) -> In d' D ->
   ~ In d' (op_dags (sp_state es) o) ->
@@ -92,10 +101,10 @@ Theorem C06_isolation_partial :
         snd (ystep loc dirhash y' (ELatest who d' day)) = snd (ystep loc dirhash y (ELatest who d' day)))
   /\ (forall who n, snd (ystep loc dirhash y' (ERecent who d' n)) = snd (ystep loc dirhash y (ERecent who d' n))).
 Proof. exact isolation. Qed.
-Print Assumptions C06_isolation_partial.
+Print Assumptions C06_isolation.
 
 (* rename carries every run: what was answered for d is answered for d' afterwards *)
-Theorem C06_rename_carries_partial :
+Theorem C06_rename_carries :
   forall loc dirhash D days K, names_okb loc dirhash D days K = true -> closedb D K = true ->
   forall es d d', premises loc dirhash D days K es -> premises loc dirhash D days K (es ++ [EOp (ORename d d')]) ->
   In d D -> In d' D -> d <> d' -> dag_view (sp_state es) d' = [] ->
@@ -106,7 +115,7 @@ Theorem C06_rename_carries_partial :
         snd (ystep loc dirhash y' (ELatest who d' day)) = snd (ystep loc dirhash y (ELatest who d day)))
   /\ (forall who n, snd (ystep loc dirhash y' (ERecent who d' n)) = snd (ystep loc dirhash y (ERecent who d n))).
 Proof. exact rename_carries. Qed.
-Print Assumptions C06_rename_carries_partial.
+Print Assumptions C06_rename_carries.
 
 (* retention removes exactly the runs of d older than the cutoff (specification), i.e. exactly the history files of d's
    directory whose mtime is older (store) - nothing of any other DAG *)
@@ -114,18 +123,18 @@ Theorem C06_retention_spec : forall (H : hist) (d : string) (cutoff : Z) (a : ar
   In a (h_runs (sp_apply H (ORemoveOld d cutoff))) <-> In a (h_runs H) /\ ~ (a_dag a = d /\ (a_mtime a < cutoff)%Z).
 Proof. exact sp_retention_exact. Qed.
 Print Assumptions C06_retention_spec.
-Theorem C06_retention_partial :
+Theorem C06_retention :
   forall loc dirhash D days K, names_okb loc dirhash D days K = true -> closedb D K = true ->
   forall es d cutoff, premises loc dirhash D days K es -> In d D ->
   let y := yrun loc dirhash sys_init es in
   files (hfs (apply loc dirhash (y_h y) (ORemoveOld d cutoff)))
   = filter (fun e => negb (String.eqb (e_dir e) (rdir dirhash d) && (mtime (e_file e) <? cutoff)%Z)) (files (hfs (y_h y))).
 Proof. exact retention_exact. Qed.
-Print Assumptions C06_retention_partial.
+Print Assumptions C06_retention.
 
 (* cache coherence: in every reachable state, for every cache (readers and the operating process) and every history file,
    LoadLatest answers exactly what ParseFile answers - files only grow or disappear, a path is never re-created *)
-Theorem C06_cache_coherent_partial :
+Theorem C06_cache_coherent :
   forall loc dirhash D days K, names_okb loc dirhash D days K = true -> closedb D K = true ->
   forall es k, premises loc dirhash D days K es -> In k K ->
   let y := yrun loc dirhash sys_init es in
@@ -133,33 +142,48 @@ Theorem C06_cache_coherent_partial :
   (forall i, snd (load_latest (y_c y i) (hfs (y_h y)) (rdir dirhash (k_dag k)) (rname k)) = pure)
   /\ snd (load_latest (hcache (y_h y)) (hfs (y_h y)) (rdir dirhash (k_dag k)) (rname k)) = pure.
 Proof. exact cache_coherent. Qed.
-Print Assumptions C06_cache_coherent_partial.
+Print Assumptions C06_cache_coherent.
 
-(* ---- the unconditional statement is refuted by the faithful model (defects of the pinned code) ---------------------------- *)
-(* F6a: two runs of one DAG started within one second: the OLDER one is "latest", recent lists oldest first *)
-Theorem C06_refuted_same_second : exists es, ytrace loc dh sys_init es <> sp_trace hist_init es.
-Proof. exact refuted_same_second. Qed.
-Print Assumptions C06_refuted_same_second.
-(* F6b: a DAG named a[1] never sees its own history *)
-Theorem C06_refuted_glob_meta : exists es, ytrace loc dh sys_init es <> sp_trace hist_init es.
-Proof. exact refuted_glob_meta. Qed.
-Print Assumptions C06_refuted_glob_meta.
-(* F6c: a DAG name containing 20240101.10:00:00 hijacks the ordering *)
-Theorem C06_refuted_stamp_like_name : exists es, ytrace loc dh sys_init es <> sp_trace hist_init es.
-Proof. exact refuted_stamp_like_name. Qed.
-Print Assumptions C06_refuted_stamp_like_name.
+(* ---- the former refutation witnesses on the repaired model: premises hold, answers as specified ------------------------------------ *)
+(* F6a - before fix e6d6379 the model answered latest = req-aaaa-1 (the older run), recent 2 oldest first *)
+Example C06_fixed_same_second :
+  all_premisesb loc dh [a] [] (univ [a] runsA) esA = true
+  /\ ytrace loc dh sys_init esA = [ANone; ANone; ANone; ANone; ANone; ANone;
+        ALatest (LOk (pl "req-bbbb-2" 2 10)); ARecent [(pl "req-bbbb-2" 2 10); (pl "req-aaaa-1" 1 10)]]
+  /\ sp_trace hist_init esA = ytrace loc dh sys_init esA.
+Proof. exact fixed_same_second. Qed.
+(* F6b - before fix 8ffc003 the model answered find = None, latest = no data for the DAG a[1] *)
+Example C06_fixed_glob_meta :
+  all_premisesb loc dh [b; q] [] (univ [b; q] runsB) esB = true
+  /\ ytrace loc dh sys_init esB = [ANone; ANone; ANone; AFind (Some (pl "req-aaaa-1" 1 10)); ALatest (LOk (pl "req-aaaa-1" 1 10));
+        ANone; AFind (Some (pl "req-aaaa-1" 1 10)); AFind None; ARecent [(pl "req-aaaa-1" 1 10)]]
+  /\ sp_trace hist_init esB = ytrace loc dh sys_init esB.
+Proof. exact fixed_glob_meta. Qed.
+(* F6c - before fix e6d6379 the model answered latest = req-aaaa-1 for the DAG n20240101.10:00:00 *)
+Example C06_fixed_stamp_like_name :
+  all_premisesb loc dh [c] [] (univ [c] runsC) esC = true
+  /\ ytrace loc dh sys_init esC = [ANone; ANone; ANone; ANone; ANone; ANone; ALatest (LOk (pl "req-bbbb-2" 2 10))]
+  /\ sp_trace hist_init esC = ytrace loc dh sys_init esC.
+Proof. exact fixed_stamp_like_name. Qed.
+(* F6d - before fix e2affa2 this shape was outside the model's domain (update overwritten in place, stale cache on the real store) *)
+Example C06_fixed_update_during_run :
+  all_premisesb loc dh [a] [] (univ [a] runsA) esD = true
+  /\ ytrace loc dh sys_init esD = [ANone; ANone; ANone; ALatest (LOk (pl "req-aaaa-1" 2 12)); ANone; ALatest (LOk (pl "req-aaaa-1" 3 10));
+                                  AFind (Some (pl "req-aaaa-1" 3 10))]
+  /\ sp_trace hist_init esD = ytrace loc dh sys_init esD.
+Proof. exact fixed_update_during_run. Qed.
 
-(* each witness falsifies exactly the premise that names its class *)
-Example C06_same_second_premise :
-  names_okb loc dh [a] [] (univ [a] runsA) = true /\ closedb [a] (univ [a] runsA) = true
-  /\ forallb (ev_inb [a] [] (univ [a] runsA)) esA = true /\ evs_okb loc dh ysys_init hist_init esA = false.
-Proof. exact same_second_premise. Qed.
-Example C06_glob_meta_premise : names_okb loc dh [b] [] (univ [b] [("20240101.10:00:00.100", "req-aaaa")]%string) = false.
-Proof. exact glob_meta_premise. Qed.
-Example C06_stamp_like_premise :
-  names_okb loc dh [c] [] (univ [c] [("20240202.10:00:00.000", "req-aaaa"); ("20240202.10:01:00.000", "req-bbbb")]%string) = false
-  /\ evs_okb loc dh ysys_init hist_init esC = true.
-Proof. exact stamp_like_premise. Qed.
+(* ---- premises that remain are needed ----------------------------------------------------------------------------------------------------- *)
+Theorem C06_same_ms_needs_premise :
+  (exists es, ytrace loc dh sys_init es <> sp_trace hist_init es) /\ evs_okb loc dh ysys_init hist_init esM = false.
+Proof. exact same_ms_needs_premise. Qed.
+Print Assumptions C06_same_ms_needs_premise.
+Theorem C06_recreated_path_needs_premise :
+  ytrace loc dh sys_init esR = [ANone; ANone; ALatest (LOk (pl "req-aaaa-1" 1 10)); ANone; ANone; ANone;
+                                ALatest (LOk (pl "req-aaaa-1" 1 10)); ALatest (LOk (pl "req-aaaa-1" 2 10))]
+  /\ evs_okb loc dh ysys_init hist_init esR = false.
+Proof. exact recreated_path_needs_premise. Qed.
+Print Assumptions C06_recreated_path_needs_premise.
 
 (* ---- non-vacuity: the premises hold of a trace with shared-prefix names, a space, the _c suffix, update, rename, retention,
         queries by two readers and the operating process; the theorem then yields these (non-trivial) answers ---------------- *)
